@@ -312,10 +312,8 @@ impl Model {
                     Some(_) => return self.unchanged(errk("IsNotFile")),
                 }
                 if let MkfileM(_, m) = op {
-                    if *m & 0o7777 == 0 {
-                        return Expect::Unspecified("mode 0");
-                    }
-                    post.nodes.get_mut(&a).unwrap().mode = *m | 0o100000;
+                    // (a mode without any permission bit is a mode like any other: same as the real filesystem)
+                    post.nodes.get_mut(&a).unwrap().mode = (*m & 0o7777) | 0o100000;
                 }
                 one(Pat::Exact(Res::Path(a)), post)
             },
